@@ -381,11 +381,22 @@ func (usi *UnrotatedSegmentInfo) DoCMICheckForUnrotated(currQuery *structs.Searc
 	return timeFilteredBlocks, totalPossibleBlocks, numFinalBlocks, nil
 }
 
+// Without micro indices no column of a block can be ruled out: every column to check counts as passed, as it
+// would with indices that all match. Searches over all columns (col "*") only look at the passed columns.
+func markAllColsAsPassed(timeFilteredBlocks map[uint16]map[string]bool, colsToCheck map[string]bool) {
+	for _, passedCols := range timeFilteredBlocks {
+		for col := range colsToCheck {
+			passedCols[col] = true
+		}
+	}
+}
+
 func (usi *UnrotatedSegmentInfo) doRangeCheckForCols(timeFilteredBlocks map[uint16]map[string]bool,
 	rangeFilter map[string]string, rangeOp sutils.FilterOperator,
 	colsToCheck map[string]bool, qid uint64) error {
 
 	if !usi.isCmiLoaded {
+		markAllColsAsPassed(timeFilteredBlocks, colsToCheck)
 		return nil
 	}
 	numUnrotatedBlks := uint16(len(usi.unrotatedBlockCmis))
@@ -426,6 +437,7 @@ func (usi *UnrotatedSegmentInfo) doBloomCheckForCols(timeFilteredBlocks map[uint
 	colsToCheck map[string]bool, qid uint64) error {
 
 	if !usi.isCmiLoaded {
+		markAllColsAsPassed(timeFilteredBlocks, colsToCheck)
 		return nil
 	}
 
